@@ -4,9 +4,9 @@ EXTENDS Recursor, RecursorNets
 
 MC_Quick == HostileParams({"in", "sib-noglue", "out", "lame"}, MModes, {"a", "cname-out", "loop2", "none"})
             \cup FilterParams({"in", "sib-noglue", "out", "self"}, {"in", "sib-noglue"}, {"a", "cname-in", "cname-out"})
-            \cup V6Params \cup TreeParams({"tree22", "tree23"}) \cup SoaParams \cup DsParams
+            \cup V6Params \cup TreeParams({"tree22", "tree23"}) \cup SoaParams \cup DsParams \cup LimParams \cup NsqParams
 MC_All   == HostileParams(LModes, MModes, TModes) \cup FilterParams(LModes, MModes, TModes) \cup V6Params
-            \cup TreeParams(TreeModes) \cup SoaParams \cup DsParams
+            \cup TreeParams(TreeModes) \cup SoaParams \cup DsParams \cup LimParams \cup NsqParams
 \* the counterexample to the "asis" rule: l.t1 is served by a name under the other TLD, whose
 \* zone's server adds an address record with a foreign owner to the answers it gives for addresses
 MC_AsIsWitness ==
